@@ -17,6 +17,7 @@ import (
 	"path/filepath"
 	"reflect"
 	"sort"
+	"strings"
 	"sync"
 
 	"github.com/gogpu/naga/dxil"
@@ -96,6 +97,37 @@ func c12Pool(c *ctx, n int) []c12Src {
 		}
 		if m, _ := frontEnd(string(b)); m != nil {
 			pool = append(pool, c12Src{"corpus:" + filepath.Base(f), string(b)})
+		}
+	}
+	// textures sampled through several samplers (the text back ends pair them in maps)
+	for i := 0; i < 6; i++ {
+		nt, ns := 1+i%3, 2+i%4
+		var b strings.Builder
+		for t := 0; t < nt; t++ {
+			fmt.Fprintf(&b, "@group(0) @binding(%d) var tex%d: texture_2d<f32>;\n", t, t)
+		}
+		for k := 0; k < ns; k++ {
+			fmt.Fprintf(&b, "@group(1) @binding(%d) var smp%d: sampler;\n", k, k)
+		}
+		b.WriteString("@group(2) @binding(0) var<storage, read_write> outp: array<vec4<f32>>;\n")
+		if i%2 == 1 {
+			b.WriteString("fn via(t: texture_2d<f32>, s: sampler) -> vec4<f32> { return textureSampleLevel(t, s, vec2<f32>(0.25), 0.0); }\n")
+		}
+		b.WriteString("@compute @workgroup_size(1)\nfn main() {\n  var acc = vec4<f32>(0.0);\n")
+		for t := 0; t < nt; t++ {
+			for k := ns - 1; k >= 0; k-- {
+				if i%2 == 1 && (t+k)%2 == 0 {
+					fmt.Fprintf(&b, "  acc = acc + via(tex%d, smp%d);\n", t, k)
+				} else {
+					fmt.Fprintf(&b, "  acc = acc + textureSampleLevel(tex%d, smp%d, vec2<f32>(0.5), 0.0);\n", t, k)
+				}
+			}
+		}
+		b.WriteString("  outp[0] = acc;\n}\n")
+		if m, _ := frontEnd(b.String()); m != nil {
+			pool = append(pool, c12Src{fmt.Sprintf("texsmp%d", i), b.String()})
+		} else {
+			c.count("texsmp-frontend-rejected")
 		}
 	}
 	// modules with overrides used in helper functions (locals with constant / override-derived initialisers)
@@ -246,6 +278,23 @@ func cmdC12(c *ctx) {
 			c.count("repeat-compilations")
 			if o1 != o2 || e1 != e2 {
 				report("repeat", b.name+" produces different output for the same module in the same process", s)
+			}
+		}
+	}
+	// ---- repeat many times: output that depends on map iteration order differs only once in a while
+	for _, s := range pool {
+		if !strings.HasPrefix(s.name, "texsmp") && !strings.HasPrefix(s.name, "witness:") {
+			continue
+		}
+		for _, b := range c12Backends {
+			o1, e1 := safeRun(b, lower(s))
+			for k := 0; k < 40; k++ {
+				o2, e2 := safeRun(b, lower(s))
+				c.count("repeat-compilations")
+				if o1 != o2 || e1 != e2 {
+					report("repeat", b.name+" produces different output for the same module in the same process", s)
+					break
+				}
 			}
 		}
 	}
